@@ -140,8 +140,10 @@ def verify_coverage(ctx, traces):
 def check(ctx):
     # the stored forms of every event-sourced aggregate, regenerated from /repo/src (theorems all_command_kinds_covered,
     # serde_attrs_reviewed over it)
-    vlib.translate(ctx, [("command_kinds", "CommandKinds.lean")])
-    vlib.prove(ctx, ["KrillModel.Props.C06", "KrillModel.Props.C06Src"], extra_targets=("kagg", "kmodel"))
+    # command_kinds: the stored forms; pure_fns:C06: the body of Aggregate::apply_command (the provided trait method every entity
+    # is replayed with) regenerated as a Lean definition, proved equal to the model's applyStored in Props/C06SrcFns.lean
+    vlib.translate(ctx, [("command_kinds", "CommandKinds.lean"), ("pure_fns:C06", "PureFnsC06.lean")])
+    vlib.prove(ctx, ["KrillModel.Props.C06", "KrillModel.Props.C06Src", "KrillModel.Props.C06SrcFns"], extra_targets=("kagg", "kmodel"))
     found = False
     private_kmodel(ctx)
     if vlib.build_harness(ctx, ["aggstore"]):
@@ -234,5 +236,5 @@ MANIFEST = {
     "note": "Theorems are about the model with an abstract aggregate; the lock-step correspondence uses a test aggregate (public traits) and "
             "RepositoryAccess; CertAuth, the TA aggregates, the publication server's access and content aggregates and the signer-info aggregate are tied by the reloadcheck comparison on system / proto stream histories (seeded + corpus), and a generated table of every storable command kind with a reviewed, trace-verified coverage table (Props/C06Src.lean) makes sure every kind and stored shape is among them. Multi-store-object quirks (drop/remove/add clear one cache only, WAL truncate strands older "
             "caches) are modelled and excluded by hypothesis where krill's usage excludes them.",
-    "technique": "Lean 4 proof (refinement invariant, induction over histories; instantiated with the CertAuth / TA proxy / TA signer models) + correspondence check + source translator (every storable command / event kind with fields and serde attributes; reviewed coverage table verified against the traces)",
+    "technique": "Lean 4 proof (refinement invariant, induction over histories; instantiated with the CertAuth / TA proxy / TA signer models) + correspondence check + source translators (body of the provided trait method Aggregate::apply_command = the model's applyStored: gen_apply_command_eq_model; every storable command / event kind with fields and serde attributes; reviewed coverage table verified against the traces)",
 }
